@@ -23,10 +23,10 @@ VARIABLES l, verdict
 (* A C34 finding is keyed by ClassKey(ev) = corruption class | tool | kind | innermost libabigail      *)
 (* function; a predicate matches on those fields of the event (ev.corruption, ev.tool, ev.kind,       *)
 (* ev.fn), never on addresses or line numbers.                                                        *)
-KF_C34(ev) == FALSE
-KF_C34_Id(ev) == "C34-elf-robustness"
-KF_C37(ev) == FALSE
-KF_C37_Id(ev) == "C37-hash-lookup"
+(* KF_C34(ev) : see KnownFindings.tla *)
+(* KF_C34_Id(ev) : see KnownFindings.tla *)
+(* KF_C37(ev) : see KnownFindings.tla *)
+(* KF_C37_Id(ev) : see KnownFindings.tla *)
 (* END known-finding predicates                                                                        *)
 (* ------------------------------------------------------------------------------------------------ *)
 
